@@ -33,7 +33,11 @@ func (c *cpuCase) String() string {
 func (c *cpuCase) normalise() {
 	if c.S.E {
 		c.S.P |= ref65816.FM | ref65816.FX
-		c.S.S = 0x0100 | c.S.S&0xFF
+		// page-1 stack; $10xx is kept as it is: both interpreters reach it after any push/pull in
+		// emulation mode (their shared stack-page quirk), so it is a reachable raw state
+		if c.S.S>>8 != 0x10 {
+			c.S.S = 0x0100 | c.S.S&0xFF
+		}
 	}
 	if c.S.P&ref65816.FX != 0 {
 		c.S.X &= 0xFF
@@ -324,7 +328,7 @@ func cpuAlphabets(thorough bool, seed int64) cpuAlpha {
 		bytes:  []byte{0x00, 0x01, 0x7F, 0x80, 0xFE, 0xFF},
 		acc:    []uint16{0x0000, 0x0001, 0x007F, 0x0080, 0x00FF, 0x0100, 0x7FFF, 0x8000, 0xFFFF, 0x1234, 0x0009, 0x0099, 0x0999, 0x9999, 0x0505},
 		idx:    []uint16{0x0000, 0x0001, 0x00FF, 0x0100, 0x8000, 0xFFFF},
-		sp:     []uint16{0x01FF, 0x0000, 0x0001, 0x00FF, 0x0100, 0xFFFE, 0xFFFF},
+		sp:     []uint16{0x01FF, 0x0000, 0x0001, 0x00FF, 0x0100, 0xFFFE, 0xFFFF, 0x10FE},
 		dreg:   []uint16{0x0000, 0x0001, 0x00FF, 0x0100, 0xFF00, 0xFFFF},
 		dbr:    []byte{0x00, 0x01, 0x7E, 0xFF},
 		ptrLo:  []uint16{0x0000, 0x00FF, 0x7FFF, 0x8000, 0xFFFE, 0xFFFF},
